@@ -65,6 +65,7 @@ type world struct {
 	hist           []string
 	maxTxSize      uint32
 	allNoVote      bool
+	dropMode       int               // 0: forged blocks are dropped at random; 1: always dropped (never reach consensus); 2: never dropped
 	forceChange    bool              // the next forged block carries a parameter change of the application
 	forceCertify   bool              // before the next forge every validator certifies the whole uncertified range
 	aggAcross      int               // forged blocks with a non-empty aggregate commit while a parameter change was finalized but uncertified
@@ -409,7 +410,11 @@ func (w *world) forge(t *rapid.T) bool {
 	// (2) selection
 	nt := w.checkSelection(b, processable)
 	// (1) the same node accepts it at this moment
-	if rapid.IntRange(0, 4).Draw(t, "dropForged") == 0 {
+	drop := rapid.IntRange(0, 4).Draw(t, "dropForged") == 0
+	if w.dropMode != 0 {
+		drop = w.dropMode == 1
+	}
+	if drop {
 		w.hist = append(w.hist, "forged block dropped (never reaches consensus)")
 	} else {
 		err := w.n.Exec.VerifProcess(node.CloneBlock(b), "peer")
@@ -634,9 +639,75 @@ func runLagScenario(t *rapid.T, w *world) (forges int) {
 	return
 }
 
+// scenario 4: the generator list of the height being forged changes between two forge attempts because the tip below it is
+// replaced (tie break / chain switch) by a block that sets a different round-robin order. The generator must work with the
+// list of the CURRENT chain: either it forges a block its node accepts, or - when the slot now belongs to a validator whose
+// key it does not hold - it forges nothing.
+func runStaleListScenario(t *rapid.T, w *world) (forges int) {
+	w.extend(t, rapid.IntRange(2, 7).Draw(t, "stalePrefix"), false)
+	// first attempt at height h: forged by the slot owner under the current list, never handed to consensus
+	w.dropMode = 1
+	if w.forge(t) {
+		forges++
+	}
+	w.dropMode = 0
+	// the tip is replaced by a sibling that rotates the generator order from the next height on
+	tip := w.n.Tip()
+	if tip.Header.Height <= w.n.Finalized() || tip.Header.Height == 0 {
+		return
+	}
+	gens, err := w.n.Exec.GetGeneratorKeys(w.n.Store(), tip.Header.Height+1)
+	cur, err2 := w.n.CurrentParams(tip.Header.Height + 1)
+	if err != nil || err2 != nil || len(gens) < 2 {
+		return
+	}
+	weight := map[int]uint64{}
+	for i, ix := range cur.Idx {
+		weight[ix] = cur.Weights[i]
+	}
+	rot := rapid.IntRange(1, len(gens)-1).Draw(t, "staleRotate")
+	next := node.NextParams{Precommit: cur.Precommit, Cert: cur.Cert}
+	for i := range gens {
+		k := node.KeyByAddr(gens[(i+rot)%len(gens)].Address())
+		next.Idx = append(next.Idx, k.Index)
+		next.Weights = append(next.Weights, weight[k.Index])
+	}
+	if err := w.n.Exec.VerifDeleteBlock(tip, false); err != nil {
+		w.fail("delete: %v", err)
+	}
+	w.hist = append(w.hist, fmt.Sprintf("delete h=%d", tip.Header.Height))
+	parent := w.n.Tip().Header
+	slot := w.n.SlotOf(tip.Header.Timestamp) + 1
+	if k, err := w.n.GeneratorAt(parent.Height+1, slot); err == nil && bytes.Equal(k.Addr, w.gStar) {
+		slot++
+	}
+	if slot >= w.n.Cfg.SlotsBehind {
+		return
+	}
+	if _, err := w.n.Apply(node.Spec{AbsSlot: slot, Script: node.Script{Salt: 11, Next: &next}}); err != nil {
+		w.fail("replacement block with a rotated generator order rejected: %v", err)
+	}
+	owner, _ := w.n.GeneratorAt(w.n.Tip().Header.Height+1, w.n.Cfg.SlotsBehind)
+	w.hist = append(w.hist, fmt.Sprintf("tip h=%d replaced by a block rotating the generator order by %d: the current slot now belongs to %x (generator holds the key of %x)",
+		tip.Header.Height, rot, owner.Addr[:2], w.gStar[:2]))
+	w.dropMode = 2
+	if w.forge(t) {
+		forges++
+	}
+	w.dropMode = 0
+	return
+}
+
 func runHistory(t *rapid.T) {
 	w := newWorld(t)
 	defer w.close()
+	if rapid.IntRange(0, 7).Draw(t, "staleListScenario") == 0 {
+		forges := runStaleListScenario(t, w)
+		evid.R.Case(strings.Join(w.hist, "|"), forges >= 1, func() any {
+			return map[string]any{"kind": "history", "actions": w.hist, "forges": forges}
+		}, "history", "stale-list-scenario", fmt.Sprintf("forges-%d", forges))
+		return
+	}
 	if rapid.IntRange(0, 9).Draw(t, "lagScenario") == 0 {
 		forges := runLagScenario(t, w)
 		if os.Getenv("C15_DEBUG") != "" {
